@@ -389,8 +389,8 @@ func reportFailure(run *report.Run, p Prop, e *Eval, kind string) {
 	if kind == "spec" {
 		i := p.firstFailure(se, "spec")
 		run.AddViolation(report.Violation{Kind: "counterexample",
-			What:  fmt.Sprintf("the real outcome of request %d of the history falsifies Spec.%sHolds", i, strings.ToLower(p.ID)),
-			Case:  []string{se.Line}, Human: c.Human(se.Obs), Model: p.Model(se.Ans[i]), Real: p.Real(se.Obs[i])})
+			What: fmt.Sprintf("the real outcome of request %d of the history falsifies Spec.%sHolds", i, strings.ToLower(p.ID)),
+			Case: []string{se.Line}, Human: c.Human(se.Obs), Model: p.Model(se.Ans[i]), Real: p.Real(se.Obs[i])})
 		return
 	}
 	// model ≠ implementation: look near the shrunk case for an input on which the PREDICATE fails
